@@ -368,6 +368,13 @@ func c08Tasks(tier string) []Task {
 			{"merge+1+1", 4, c08MergeInits, []Cfg{hm, bt, rot}},
 		}
 	}
+	// long keys: the hint file written by the racing Merge spans block boundaries; B-tree / skip list keep key slices
+	longInit := map[string][]Op{"long-keys": {{K: "put", Key: c18LongKeys[0], VC: "S"}, {K: "put", Key: c18LongKeys[1], VC: "S"}, {K: "put", Key: "a", VC: "S"}}}
+	var lcfgs []Cfg
+	for _, c := range longKeyCfgs() {
+		lcfgs = append(lcfgs, c)
+	}
+	levels = append(levels, c08Level{"merge+1", -1, longInit, lcfgs})
 	var tasks []Task
 	for _, lv := range levels {
 		for _, cfg := range lv.cfgs {
